@@ -8,7 +8,7 @@ PROPS_FILE = "props/C05.v"
 IMPL = "C05_impl.py"
 COQ_HEADER = "From Coq Require Import ZArith.\nFrom FV Require Import base.PyNum base.Util model.Loop."
 RULE = ("bounds cases: every (T,k), 1<=k<=T<=Tmax (exhaustive), model list == implementation list; "
-        "run cases: placed scene (sources, detectors, PML/PEC/periodic) run under no-grad / checkpointed(n) / reversible(n), each from the fresh container and again from the container returned by the first run; "
+        "run cases: placed scene (sources, detectors, PML/PEC/periodic, blocks with electric and magnetic loss, diagonal tensors, a Lorentz pole) run under no-grad / checkpointed(n) / reversible(n), each from the fresh container and again from the container returned by the first run; "
         "non-trivial = T>=2 and (k>=2 or a run with non-zero fields)")
 EXHAUSTIVE = {"quick": True, "thorough": True}
 ASSUMPTIONS = ["round(i*T/k) evaluated in double equals round-half-even of the exact quotient (T*k < 2^52)",
@@ -29,11 +29,16 @@ def translate(ctx):
     return [("fdtd.py:_reversible_slice_boundaries", ok, err or "gen = model (reflexivity)")]
 
 
-def scene(rng, T):
+def scene(rng, T, i=0):
     bts = [{"min_x": "pec", "max_x": "pmc", "min_y": "periodic", "max_y": "periodic", "min_z": "pml", "max_z": "pml"},
            {f: "pml" for f in ("min_x", "max_x", "min_y", "max_y", "min_z", "max_z")},
            {"min_x": "periodic", "max_x": "periodic", "min_y": "pec", "max_y": "pec", "min_z": "pmc", "max_z": "pml"}]
-    return {"shape": [7, 6, 10], "spacing": 5e-8, "steps": T, "bt": rng.choice(bts), "thickness": 2,
+    # material blocks: every material array of the container takes part (electric / magnetic loss, diagonal tensors, a Lorentz pole)
+    blocks = [{"box": [[2, 5], [1, 4], [5, 7]], "eps": rng.choice([2.25, [2.0, 3.0, 4.0]]), "mu": rng.choice([1.5, [1.6, 1.0, 2.2]]),
+               "sigma_e": 50.0 if i % 2 else rng.choice([None, 50.0]), "sigma_m": rng.choice([None, 1.0e7]) if i % 2 else 1.0e7, "name": "lossy"}]
+    if i % 2:
+        blocks.append({"box": [[1, 4], [3, 6], [7, 8]], "eps": 2.25, "lorentz": {"w0": 4.0e15, "g": 1.0e14, "de": 1.5}, "name": "lor"})
+    return {"shape": [7, 6, 10], "spacing": 5e-8, "steps": T, "bt": rng.choice(bts), "thickness": 2, "blocks": blocks,
             "sources": [{"kind": "plane", "axis": 2, "pos": 4, "dir": "+", "pol": [1.0, 0.5, 0.0], "switch": {"fixed": sorted(rng.sample(range(T), max(1, T // 2)))}},
                         {"kind": "dipole", "cell": [3, 3, 5], "pol": 2, "switch": {"start_time": 1, "end_time": max(2, T - 2)}}],
             "detectors": [{"kind": "field", "box": [[2, 5], [2, 4], [3, 7]], "name": "fd"},
@@ -44,11 +49,11 @@ def scene(rng, T):
 def gen_cases(ctx):
     Tmax = ctx.pick(16, 60)
     cases = [{"kind": "bounds", "T": T, "ks": list(range(1, T + 1))} for T in range(1, Tmax + 1)]
-    for T in ctx.pick([5, 9], [1, 2, 3, 7, 12, 17]):
+    for i, T in enumerate(ctx.pick([5, 9], [1, 2, 3, 7, 12, 17])):
         ks = sorted(set([0, 1, T - 1, T // 2, T, T + 2]) - {-1})
         grads = [{"method": "checkpointed", "n": n} for n in sorted({1, max(1, T // 2), T})]
         grads += [{"method": "reversible", "n": n} for n in ks if n >= 0]
-        cases.append({"kind": "run", "T": T, "spec": scene(ctx.rng, T), "grads": grads})
+        cases.append({"kind": "run", "T": T, "spec": scene(ctx.rng, T, i), "grads": grads})
     return cases
 
 
@@ -75,6 +80,8 @@ def coq_expr(case, out):
     parts = []
     for r in out["runs"]:
         m = f"run_fdtd Z Z.succ (fun s => s) {gcoq(r['g'])} {zlit(out['T'])} 0%Z"
+        if "error" in r and "Dispersive time-reversible" in r["error"]:
+            continue      # refusal of dispersive media by the reversible method: outside the loop model
         if "error" in r:
             parts.append(f"match {m} with ErrTooManyCheckpoints => true | Ok _ => false end")
         else:
@@ -97,6 +104,8 @@ def predicate(case, out):
         g = r["g"]
         tag = f"{g['method']}-{g['n']}-T{out['T']}"
         if "error" in r:
+            if g["method"] == "reversible" and "Dispersive time-reversible" in r["error"] and any(b.get("lorentz") for b in case["spec"].get("blocks", [])):
+                continue      # documented refusal: the reversible method does not support dispersive media
             if not (g["method"] == "reversible" and g["n"] > 0 and g["n"] + 1 > out["T"]):
                 return ("error-" + tag, f"unexpected error {r['error']}")
             continue
